@@ -16,6 +16,9 @@ Fixpoint s_mentionsN (x : name) (s : stmt) : bool :=
   | SPrint e | SExpr e | SReturn e | SThrow e => e_mentions x e
   | SBlock b | SFiber b => existsb (s_mentionsN x) b
   | SFun f ps b | SLam f ps b => (f =? x) || existsb (s_mentionsN x) b
+  | SLoop i _ b => (i =? x) || existsb (s_mentionsN x) b
+  | SIf a c t e => e_mentions x a || e_mentions x c || existsb (s_mentionsN x) t || existsb (s_mentionsN x) e
+  | SBreak | SContinue => false
   | _ => true
   end.
 
@@ -28,6 +31,21 @@ Fixpoint stmt5 (infun top : bool) (s : stmt) : bool :=
   | SBlock b => forallb (stmt5 infun false) b
   | SLam x ps b => forallb (stmt5 true false) b && (top || negb (existsb (s_mentionsN x) b))
   | SFun _ ps b => forallb (stmt5 true false) b
+  | _ => false
+  end.
+
+(* stages 3 and 4: `for` loops (SLoop), `if a < c {..} else {..}`, and - when `jumps` - break / continue inside loops.
+   `inloop`: inside a loop body of the current function *)
+Fixpoint stmt6 (jumps infun top inloop : bool) (s : stmt) : bool :=
+  match s with
+  | SDecl _ e | SAssign _ e | SPrint e | SExpr e => expr2 e
+  | SReturn e => infun && expr2 e
+  | SBlock b => forallb (stmt6 jumps infun false inloop) b
+  | SLam x ps b => forallb (stmt6 jumps true false false) b && (top || negb (existsb (s_mentionsN x) b))
+  | SFun _ ps b => forallb (stmt6 jumps true false false) b
+  | SLoop _ _ b => forallb (stmt6 jumps infun false true) b
+  | SIf a c t e => expr2 a && expr2 c && forallb (stmt6 jumps infun false inloop) t && forallb (stmt6 jumps infun false inloop) e
+  | SBreak | SContinue => jumps && inloop
   | _ => false
   end.
 
@@ -138,23 +156,41 @@ Definition nclose (ps : list name) (r : option nres) : option (instr * list loca
   | _ => None
   end.
 
-Fixpoint nstmt (s : stmt) (L : list local) (d : nat) (U : ups_t) (E : list lev) (fs : list func) {struct s} : option nres :=
-  let nl := fix go (l : list stmt) (dd : nat) (L : list local) (U : ups_t) (E : list lev) (fs : list func) : option nres :=
+(* the innermost enclosing loop of the function being compiled: byte offset of its start (the IterNext), the scope
+   depth of the loop (locals deeper than that are popped by break / continue), byte offset where `break` lands *)
+Record lctx := mkLctx { lc_start : nat; lc_depth : nat; lc_exit : nat }.
+
+Definition loop_pre (n : nat) : list instr := [INil; IConst 0; IConst (N.of_nat n); IBuildRange; IInvoke MIter 0].
+Definition loop_head (lv x : nat) : list instr := [IIterNext; ISetLocal lv; IJumpIfStopIter x; IPop].
+
+(* pos = byte offset, in the code of the function being compiled, at which the statement's code starts *)
+Fixpoint nstmt (s : stmt) (L : list local) (d : nat) (U : ups_t) (E : list lev) (fs : list func)
+               (pos : nat) (lc : option lctx) {struct s} : option nres :=
+  let nl := fix go (l : list stmt) (dd : nat) (L : list local) (U : ups_t) (E : list lev) (fs : list func)
+                   (pos : nat) (lc : option lctx) : option nres :=
     match l with
     | [] => Some ([], L, U, E, fs)
-    | a :: r => match nstmt a L dd U E fs with
+    | a :: r => match nstmt a L dd U E fs pos lc with
                 | Some (ca, L1, U1, E1, fs1) =>
-                    match go r dd L1 U1 E1 fs1 with
+                    match go r dd L1 U1 E1 fs1 (pos + code_size ca) lc with
                     | Some (cr, L2, U2, E2, fs2) => Some ((ca ++ cr)%list, L2, U2, E2, fs2)
                     | None => None
                     end
                 | None => None
                 end
     end in
+  (* { b } at depth dd (the statements inside are at depth S dd) *)
+  let nblock := fun (b : list stmt) (dd : nat) (L : list local) (U : ups_t) (E : list lev) (fs : list func)
+                    (pos : nat) (lc : option lctx) =>
+    match nl b (S dd) L U E fs pos lc with
+    | Some (cb, L', U', E', fs') =>
+        let ops := scope_end_ops L' dd in Some ((cb ++ ops)%list, skipn (List.length ops) L', U', E', fs')
+    | None => None
+    end in
   (* the body of a function whose enclosing function has locals L1 *)
   let nfun := fun (ps : list name) (b : list stmt) (L1 : list local) =>
     match bparams cf ps [mkLocal None (Some 0) false] with
-    | Some Lp => nclose ps (nl b 1 Lp [] (mkLev L1 U :: E) fs)
+    | Some Lp => nclose ps (nl b 1 Lp [] (mkLev L1 U :: E) fs 0 None)
     | None => None
     end in
   match s with
@@ -191,12 +227,7 @@ Fixpoint nstmt (s : stmt) (L : list local) (d : nat) (U : ups_t) (E : list lev) 
       | Some (ce, U', E') => Some ((ce ++ [IReturn])%list, L, U', E', fs)
       | None => None
       end
-  | SBlock b =>
-      match nl b (S d) L U E fs with
-      | Some (cb, L', U', E', fs') =>
-          let ops := scope_end_ops L' d in Some ((cb ++ ops)%list, skipn (List.length ops) L', U', E', fs')
-      | None => None
-      end
+  | SBlock b => nblock b d L U E fs pos lc
   | SFun f ps b =>
       if d =? 0 then
         match nfun ps b L with
@@ -223,15 +254,74 @@ Fixpoint nstmt (s : stmt) (L : list local) (d : nat) (U : ups_t) (E : list lev) 
         | Some (ci, l0 :: L', U', E', fs') => Some ([ci], mkLocal (Some x) (Some d) (l_capt l0) :: L', U', E', fs')
         | _ => None
         end
+  | SLoop i n b =>
+      if dup_in_scope L i (S d) then None
+      else if List.length L =? c_locals_max cf then None
+      else if S (List.length L) =? c_locals_max cf then None
+      else
+        let lv := List.length L in
+        let Lh := mkLocal None (Some (S d)) false :: mkLocal (Some i) (Some (S d)) false :: L in
+        let start := pos + code_size (loop_pre n) in
+        let posb := start + code_size (loop_head lv 0) in
+        (* first pass: the size of the body block (jump operands do not matter for sizes) *)
+        match nblock b (S d) Lh U E fs posb (Some (mkLctx start (S d) 0)) with
+        | Some (c0, _, _, _, _) =>
+            let szb := code_size c0 in
+            match nblock b (S d) Lh U E fs posb (Some (mkLctx start (S d) (posb + szb + 3 + 1))) with
+            | Some (cblock, L1, U', E', fs') =>
+                let ops := scope_end_ops L1 d in
+                Some ((loop_pre n ++ loop_head lv (1 + szb + 3) ++ cblock
+                       ++ [ILoop (code_size (loop_head lv 0) + szb + 3); IPop] ++ ops)%list,
+                      skipn (List.length ops) L1, U', E', fs')
+            | None => None
+            end
+        | None => None
+        end
+  | SIf a c t e =>
+      match nexpr L a U E with
+      | Some (ca, U1, E1) =>
+          match nexpr L c U1 E1 with
+          | Some (cc, U2, E2) =>
+              let post := pos + code_size ca + code_size cc + code_size [ILess; IJumpIfFalse 0; IPop] in
+              match nblock t d L U2 E2 fs post lc with
+              | Some (ct, L1, U3, E3, fs1) =>
+                  let pose := post + code_size ct + code_size [IJump 0; IPop] in
+                  match nblock e d L1 U3 E3 fs1 pose lc with
+                  | Some (cel, L2, U4, E4, fs2) =>
+                      Some ((ca ++ cc ++ [ILess; IJumpIfFalse (1 + code_size ct + 3); IPop] ++ ct
+                             ++ [IJump (1 + code_size cel); IPop] ++ cel)%list, L2, U4, E4, fs2)
+                  | None => None
+                  end
+              | None => None
+              end
+          | None => None
+          end
+      | None => None
+      end
+  | SBreak =>
+      match lc with
+      | Some l =>
+          let ops := scope_end_ops L (lc_depth l) in
+          Some ((ops ++ [IJump (lc_exit l - (pos + code_size ops + 3))])%list, L, U, E, fs)
+      | None => None
+      end
+  | SContinue =>
+      match lc with
+      | Some l =>
+          let ops := scope_end_ops L (lc_depth l) in
+          Some ((ops ++ [ILoop (pos + code_size ops + 3 - lc_start l)])%list, L, U, E, fs)
+      | None => None
+      end
   | _ => None
   end.
 
-Fixpoint nlist (l : list stmt) (d : nat) (L : list local) (U : ups_t) (E : list lev) (fs : list func) : option nres :=
+Fixpoint nlist (l : list stmt) (d : nat) (L : list local) (U : ups_t) (E : list lev) (fs : list func)
+               (pos : nat) (lc : option lctx) : option nres :=
   match l with
   | [] => Some ([], L, U, E, fs)
-  | a :: r => match nstmt a L d U E fs with
+  | a :: r => match nstmt a L d U E fs pos lc with
               | Some (ca, L1, U1, E1, fs1) =>
-                  match nlist r d L1 U1 E1 fs1 with
+                  match nlist r d L1 U1 E1 fs1 (pos + code_size ca) lc with
                   | Some (cr, L2, U2, E2, fs2) => Some ((ca ++ cr)%list, L2, U2, E2, fs2)
                   | None => None
                   end
@@ -239,11 +329,20 @@ Fixpoint nlist (l : list stmt) (d : nat) (L : list local) (U : ups_t) (E : list 
               end
   end.
 
+(* { b } at depth d, named *)
+Definition nblk (b : list stmt) (d : nat) (L : list local) (U : ups_t) (E : list lev) (fs : list func)
+                (pos : nat) (lc : option lctx) : option nres :=
+  match nlist b (S d) L U E fs pos lc with
+  | Some (cb, L', U', E', fs') =>
+      let ops := scope_end_ops L' d in Some ((cb ++ ops)%list, skipn (List.length ops) L', U', E', fs')
+  | None => None
+  end.
+
 (* function() / lambda(), named: parameters ps, body b, in a function with locals L1, upvalues U, enclosing levels E *)
 Definition nfunc (ps : list name) (b : list stmt) (L1 : list local) (U : ups_t) (E : list lev) (fs : list func)
   : option (instr * list local * ups_t * list lev * list func) :=
   match bparams cf ps [mkLocal None (Some 0) false] with
-  | Some Lp => nclose ps (nlist b 1 Lp [] (mkLev L1 U :: E) fs)
+  | Some Lp => nclose ps (nlist b 1 Lp [] (mkLev L1 U :: E) fs 0 None)
   | None => None
   end.
 
